@@ -78,6 +78,32 @@ def mc_case(case):
                             viols.append(("mc.file-value", f"monte_carlo/.../{name}/{attr}.csv iteration {it}: file {fv}, memory {mv}"))
         if len(viols) > 8:
             break
+    # levels agree in every iteration: network value = ENS = sum over its load points; system value = sum over its networks
+    for r in rets:
+        def val(name, attr):
+            byit = r.get(name, {}).get(attr)
+            if not byit:
+                return None
+            v = list(byit.values())[0]
+            return float(v.get_hours() if hasattr(v, "get_hours") else v)
+        it = list(r[ps.name]["ENS"].keys())[0]
+        tot = {"acc_p_energy_shed": 0.0, "acc_q_energy_shed": 0.0}
+        for nw in ps.child_network_list:
+            for attr in ("acc_p_energy_shed", "acc_q_energy_shed"):
+                nv = val(nw.name, attr)
+                if nv is None:
+                    continue
+                bs = sum(val(b.name, attr) or 0.0 for b in nw.buses)
+                tot[attr] += nv
+                if not close(nv, bs, 1e-9):
+                    viols.append(("mc.levels", f"iteration {it}: {attr} of network {nw.name} is {nv} but its load points sum to {bs}"))
+            ens = val(nw.name, "ENS")
+            if ens is not None and not close(ens, val(nw.name, "acc_p_energy_shed"), 1e-9):
+                viols.append(("mc.levels", f"iteration {it}: ENS of network {nw.name} is {ens} but its acc_p_energy_shed is {val(nw.name, 'acc_p_energy_shed')}"))
+        for attr in tot:
+            sv = val(ps.name, attr)
+            if sv is not None and not close(sv, tot[attr], 1e-9):
+                viols.append(("mc.levels", f"iteration {it}: {attr} of the system is {sv} but its networks sum to {tot[attr]}"))
     nev = len(ps.ev_parks)
     return dict(ops=[], impl=[], viols=viols[:4], nontrivial=("mc", nev, bool(case["spec"].get("mg")), min(ncmp // 100, 20)), tag=f"mc:ev={nev}")
 
@@ -154,7 +180,9 @@ def gen_mc(rng, n):
     from . import net
     cases = []
     for j in range(n):
-        spec = net.rand_feeder_spec(rng, max_lines=4, ctrl="manual", allow_tie=False, allow_mg=rng.random() < 0.6 and j % 3 != 0)
+        spec = net.rand_feeder_spec(rng, max_lines=4, ctrl="manual", allow_tie=False, allow_mg=False)
+        while j % 3 != 0 and not spec.get("mg") and (j % 3 == 1 or rng.random() < 0.5):     # every third configuration has a microgrid for sure
+            spec = net.rand_feeder_spec(rng, max_lines=4, ctrl="manual", allow_tie=False, allow_mg=True)
         for fd in spec["feeders"]:       # EV parks on buses that are not the last bus of the system, sometimes several
             nb = len(fd["parent"])
             fd["ev"] = {str(k): {"hours": list(range(24)), "table": [str(rng.choice([2, 3, 5])) for _ in range(24)], "v2g": rng.random() < 0.6}
